@@ -96,7 +96,10 @@ def check(prop, tier, replay_file=None):
                 total = len(cases)
                 n = nq if tier == "quick" else nt
                 if n and len(cases) > n:
-                    cases = rnd.sample(cases, n)
+                    # stratified: every request of at most one operation, and a seeded sample of the longer ones
+                    small = [c for c in cases if fam == "c13" and len(c.get("ops", [])) <= 1]
+                    rest = [c for c in cases if not (fam == "c13" and len(c.get("ops", [])) <= 1)]
+                    cases = small + rnd.sample(rest, min(n, len(rest)))
                 explored.append(dict(family=fam, cases=total, run_on_real_code=len(cases), generated=gen, distinct=dist, wall_s=round(wall, 1)))
                 allcases += cases
         obs = run_cases(sc, bins, specdir, allcases, prop)
